@@ -238,7 +238,10 @@ func checkC19(c *Ctx) {
 		"<(0,len(" + pw + "))":                                 "hasPw",
 		sortedEq(msg+"#0.Password", pw+"[0]"):                  "pwEq",
 		sortedEq("conv<string>("+msg+"#0.Password)", pw+"[0]"): "pwEq",
-		sortedEq("nil", "$0.controls"):                         "noControls",
+		// subtle.ConstantTimeCompare(x, y) == 1 exactly when the two byte strings are equal (any lengths)
+		sortedEq("1", "crypto/subtle.ConstantTimeCompare(conv<[]byte>("+msg+"#0.Password),conv<[]byte>("+pw+"[0]))"): "pwEq",
+		sortedEq("1", "crypto/subtle.ConstantTimeCompare(conv<[]byte>("+pw+"[0]),conv<[]byte>("+msg+"#0.Password))"): "pwEq",
+		sortedEq("nil", "$0.controls"): "noControls",
 	}
 	// "anonymous binds allowed" is whatever SetAllowAnonymousBind stores: the bool itself, or a state constant
 	// chosen from it by a pure bool -> constant helper (`anonBindStateFor(enabled)`)
@@ -333,7 +336,39 @@ func checkC19(c *Ctx) {
 			unknown = append(unknown, a)
 		}
 	}
-	if len(unknown) > 0 {
+	// a predicate the property does not know is harmless when the decision does not depend on it (`if debug { log }`):
+	// up to three such atoms are left free - the table below is enumerated for both of their values and must give the
+	// required outcome for each
+	freeAtoms := len(unknown) > 0 && len(unknown) <= 3
+	if freeAtoms {
+		probe := &an.Walker{Fn: h}
+		probe.AliasTupleHelpers()
+		probe.CondAtoms()
+		probe.Event = func(in ssa.Instruction, k *an.Walk) {
+			if code, isK, is := isSet(in); is && isK {
+				k.Data["code"] = code
+			}
+		}
+		for _, val := range an.Valuations(atoms) {
+			flip := map[string]bool{}
+			for a, b := range val {
+				flip[a] = b
+			}
+			base := probe.Run(val)
+			for _, u := range unknown {
+				flip[u] = !val[u]
+				other := probe.Run(flip)
+				flip[u] = val[u]
+				if base.Undecided != "" || other.Undecided != "" || base.Ret == nil || other.Ret == nil || base.Data["code"] != other.Data["code"] {
+					freeAtoms = false
+				}
+			}
+			if !freeAtoms {
+				break
+			}
+		}
+	}
+	if len(unknown) > 0 && !freeAtoms {
 		R.Fail("C19-formula", fname(h)+": bind decision", c.P.Pos(h.Pos()), "the bind decision depends on a predicate the property does not know: "+strings.Join(unknown, "; ")+" (expected: exact DN equality, first password value equality, empty password with anonymous binds allowed)")
 		return
 	}
